@@ -649,8 +649,11 @@ int disasm_arm64(
         }
         case OP_LD_ST_IMM:
         {
-          imm = ((opcode >> 10) & 0xfff) << 1;
-          char reg_name = (size & 1) == 0 ? 'x' : 'w';
+          // imm12 is scaled by the transfer size in bits 31..30 and only
+          // size 3 (64 bit) has an x register.
+          int scale = (opcode >> 30) & 0x3;
+          imm = ((opcode >> 10) & 0xfff) << scale;
+          char reg_name = (scale == 3) ? 'x' : 'w';
 
           if (v == 1)
           {
